@@ -693,6 +693,43 @@ def _r14_leaf(expr):
     return e, mutable, limit
 
 
+def _has_top_level_range(ts):
+    d = 0
+    for t in ts:
+        if t.kind == "punct" and t.text in OPEN: d += 1
+        elif t.kind == "punct" and t.text in CLOSE: d -= 1
+        elif t.kind == "punct" and t.text in ("..", "..=") and d == 0:
+            return True
+    return False
+
+def _r14_subslice(base):
+    """base tokens of the form X[A..B] (both bounds given) -> (X, A, B) as text, else None"""
+    c = [i for i, t in enumerate(base) if t.kind not in ("ws", "comment")]
+    if not c or base[c[-1]].text != "]":
+        return None
+    k = c[-1]
+    depth = 0
+    while k >= 0:
+        if base[k].kind == "punct" and base[k].text in CLOSE: depth += 1
+        if base[k].kind == "punct" and base[k].text in OPEN:
+            depth -= 1
+            if depth == 0: break
+        k -= 1
+    if k <= 0 or base[k].text != "[":
+        return None
+    inner = base[k + 1:c[-1]]
+    d = 0
+    for q, t in enumerate(inner):
+        if t.kind == "punct" and t.text in OPEN: d += 1
+        elif t.kind == "punct" and t.text in CLOSE: d -= 1
+        elif t.kind == "punct" and t.text == ".." and d == 0:
+            lo, hi = untok(_strip_ws(inner[:q])), untok(_strip_ws(inner[q + 1:]))
+            if not lo or not hi:
+                return None
+            return untok(_strip_ws(base[:k])), lo, hi
+    return None
+
+
 def rule_R14(toks, fired, which=None):
     """index-loop form of slice zips:  for (P1,..,Pk) in zip/izip!/.zip(S1,..,Sk) {B}   ->
          { let mut n = S1.len(); if S2.len() < n { n = S2.len(); } ..; for r14_i in 0..n { let P1 = &[mut] S1[r14_i]; ..; B } }
@@ -716,7 +753,7 @@ def rule_R14(toks, fired, which=None):
             pat = toks[i + 1:j]
             expr = toks[j + 1:bo]
             leaves = _r14_flatten(pat, expr)
-            if len(leaves) == 1 and any(x.kind == "punct" and x.text in ("..", "..=") for x in leaves[0][1]) and ordinal not in which:
+            if len(leaves) == 1 and _has_top_level_range(leaves[0][1]) and ordinal not in which:
                 i += 1     # a plain range loop: nothing to rewrite
                 continue
             hints = which.get(ordinal, which.get("*", ""))
@@ -731,18 +768,29 @@ def rule_R14(toks, fired, which=None):
                     else:
                         raise ExtractError(f"R14: mutability of zip leaf {li} of loop {ordinal} is not visible; give it in the rule argument")
                 bt = untok(base)
-                lens = [f"{bt}.len()"] + ([untok(limit)] if limit is not None else [])
+                sub = _r14_subslice(base)
+                if sub is not None:
+                    # leaf X[A..B]: the slice-index bounds check of the original (A <= B <= X.len(), else panic) is kept
+                    # as an explicit assert!, the elements are X[A + i]
+                    xb, lo_, hi_ = sub
+                    lo_v, hi_v = f"r14_lo{nrew}_{li}", f"r14_hi{nrew}_{li}"
+                    pre.append(f"let {lo_v}: usize = {lo_}; let {hi_v}: usize = {hi_}; assert!({lo_v} <= {hi_v} && {hi_v} <= {xb}.len());")
+                    lens = [f"{hi_v} - {lo_v}"] + ([untok(limit)] if limit is not None else [])
+                    bt = None
+                else:
+                    lens = [f"{bt}.len()"] + ([untok(limit)] if limit is not None else [])
                 for ln in lens:
-                    if not pre:
+                    if not any(x.startswith(f"let mut {nv}:") for x in pre):
                         pre.append(f"let mut {nv}: usize = {ln};")
                     else:
                         pre.append(f"if {ln} < {nv} {{ {nv} = {ln}; }}")
                 p_ = _strip_ws(p_)
                 pc = [x for x in p_ if x.kind not in ("ws", "comment")]
+                elem = f"{bt}[{iv}]" if bt is not None else f"{xb}[{lo_v} + {iv}]"
                 if len(pc) == 2 and pc[0].text == "&" and pc[1].kind == "ident":
-                    lets.append(f"let {pc[1].text} = {bt}[{iv}];")
+                    lets.append(f"let {pc[1].text} = {elem};")
                 elif len(pc) == 1 and pc[0].kind == "ident":
-                    lets.append(f"let {pc[0].text} = &{'mut ' if mutable else ''}{bt}[{iv}];")
+                    lets.append(f"let {pc[0].text} = &{'mut ' if mutable else ''}{elem};")
                 else:
                     raise ExtractError("R14: unsupported leaf pattern " + untok(p_))
             bc = match_close(toks, bo)
@@ -846,6 +894,196 @@ def rule_R17(toks, fired):
             end = b if toks[b].text == ";" else pe
             toks = toks[:a] + new + toks[end + 1:]
             fired["R17"] = fired.get("R17", 0) + 1
+            i = a + 1
+            continue
+        i += 1
+    return toks
+
+
+def rule_R19(toks, fired):
+    """let NAME = EXPR;  NAME.for_each(..)   ->   EXPR.for_each(..)      (inline an immutable, un-annotated, single-use
+    binding of an iterator expression into the statement that immediately follows it; evaluation order is unchanged
+    because nothing lies between the binding and its only use)"""
+    i = 0
+    while i < len(toks):
+        t = toks[i]
+        if t.kind == "ident" and t.text == "let" and not t.syn:
+            n1 = next_code(toks, i + 1)
+            n2 = next_code(toks, n1 + 1)
+            if toks[n1].kind == "ident" and toks[n1].text != "mut" and toks[n2].text == "=":
+                name = toks[n1].text
+                a, b = stmt_bounds(toks, i)
+                if a == i and toks[b].text == ";":
+                    u = next_code(toks, b + 1)
+                    d = next_code(toks, u + 1)
+                    m = next_code(toks, d + 1)
+                    uses = [k for k, x in enumerate(toks) if x.kind == "ident" and x.text == name and k != n1]
+                    if (toks[u].kind == "ident" and toks[u].text == name and toks[d].text == "." and toks[m].text == "for_each"
+                            and uses == [u]):
+                        expr = _strip_ws(toks[n2 + 1:b])
+                        toks = toks[:i] + expr + toks[u + 1:]
+                        fired["R19"] = fired.get("R19", 0) + 1
+                        continue
+        i += 1
+    return toks
+
+
+def rule_R20(toks, fired):
+    """for x in A..=B  ->  for x in A..(B + 1)     (RangeInclusive has no Verus iterator spec; the two ranges yield the
+    same values whenever B + 1 does not overflow, and Verus' overflow check on the synthesized `B + 1` makes that a proof
+    obligation instead of an assumption)"""
+    i = 0
+    while i < len(toks):
+        t = toks[i]
+        if t.kind == "ident" and t.text == "for" and not t.syn and toks[next_code(toks, i + 1)].text != "<":
+            j = i + 1
+            while not (toks[j].kind == "ident" and toks[j].text == "in"):
+                if toks[j].kind == "punct" and toks[j].text in ("(", "["):
+                    j = match_close(toks, j)
+                j += 1
+            bo = _loop_body_open(toks, i)
+            d = 0
+            for q in range(j + 1, bo):
+                x = toks[q]
+                if x.kind == "punct" and x.text in OPEN: d += 1
+                elif x.kind == "punct" and x.text in CLOSE: d -= 1
+                elif x.kind == "punct" and x.text == "..=" and d == 0:
+                    hi = _strip_ws(toks[q + 1:bo])
+                    toks = toks[:q] + synth("..(") + hi + synth(" + 1) ") + toks[bo:]
+                    fired["R20"] = fired.get("R20", 0) + 1
+                    break
+        i += 1
+    return toks
+
+
+def _postfix_start(toks, dot):
+    """index of the first token of the postfix expression that ends just before toks[dot] (a `.`)"""
+    j = prev_code(toks, dot - 1)
+    while True:
+        t = toks[j]
+        if t.kind == "punct" and t.text in (")", "]"):
+            depth = 0
+            k = j
+            while k >= 0:
+                if toks[k].kind == "punct" and toks[k].text in CLOSE: depth += 1
+                if toks[k].kind == "punct" and toks[k].text in OPEN:
+                    depth -= 1
+                    if depth == 0: break
+                k -= 1
+            j = k
+            p = prev_code(toks, j - 1)
+            if p >= 0 and (toks[p].kind == "ident" and toks[p].text not in ("if", "while", "in", "return", "match", "let", "else")
+                           or (toks[p].kind == "punct" and toks[p].text in (")", "]"))):
+                j = p
+                continue
+            return j
+        if t.kind in ("ident", "num", "str", "char"):
+            p = prev_code(toks, j - 1)
+            if p >= 0 and toks[p].kind == "punct" and toks[p].text in (".", "::"):
+                j = prev_code(toks, p - 1)
+                continue
+            return j
+        raise ExtractError("R21/R22: cannot delimit the receiver expression")
+
+
+def _closure_parts(toks, p, pe):
+    """toks[p] == '(' of  .method(|PAT| BODY) ; returns (PAT tokens, BODY tokens)"""
+    c0 = next_code(toks, p + 1)
+    if toks[c0].text != "|":
+        raise ExtractError("R21/R22: argument is not a closure")
+    c1 = c0 + 1
+    while toks[c1].text != "|":
+        if toks[c1].kind == "punct" and toks[c1].text in ("(", "["):
+            c1 = match_close(toks, c1)
+        c1 += 1
+    return _strip_ws(toks[c0 + 1:c1]), _strip_ws(toks[c1 + 1:pe])
+
+
+def _for_tok():
+    return Tok("ident", "for", -1, False)
+
+
+def rule_R21(toks, fired):
+    """definitions of the short-circuiting iterator predicates, as loops (no Verus spec for Iterator::any / all / windows):
+         X.any(|PAT| BODY)              ->  { let mut r21_k = false; for PAT in X { if !r21_k && BODY { r21_k = true; } } r21_k }
+         X.all(|PAT| BODY)              ->  { let mut r21_k = true;  for PAT in X { if r21_k && !(BODY) { r21_k = false; } } r21_k }
+         S.windows(2).any(|c| BODY)     ->  { let r21_s = &S; let mut r21_k = false;
+                                              for r21_i in 1..r21_s.len() { let c = &r21_s[(r21_i - 1)..(r21_i + 1)]; if !r21_k && BODY { r21_k = true; } } r21_k }
+       BODY is evaluated for the same elements in the same order up to the first decisive one and for none after it."""
+    n = 0
+    i = 0
+    while i < len(toks):
+        t = toks[i]
+        if t.kind == "ident" and t.text in ("any", "all") and not t.syn and toks[prev_code(toks, i - 1)].text == "." \
+                and toks[next_code(toks, i + 1)].text == "(":
+            dot = prev_code(toks, i - 1)
+            p = next_code(toks, i + 1)
+            pe = match_close(toks, p)
+            c0 = next_code(toks, p + 1)
+            if toks[c0].text != "|":
+                i += 1
+                continue
+            pat, body = _closure_parts(toks, p, pe)
+            a = _postfix_start(toks, dot)
+            recv = toks[a:dot]
+            n += 1
+            k = f"r21_k{n}"
+            is_any = t.text == "any"
+            # windows(2) receiver?
+            rc = [x for x in recv if x.kind not in ("ws", "comment")]
+            win = len(rc) >= 5 and rc[-1].text == ")" and rc[-2].text == "2" and rc[-3].text == "(" and rc[-4].text == "windows" and rc[-5].text == "."
+            test = (synth(f"if !{k} && ") + body + synth(f" {{ {k} = true; }}")) if is_any else \
+                   (synth(f"if {k} && !(") + body + synth(f") {{ {k} = false; }}"))
+            if win:
+                widx = max(q for q, x in enumerate(recv) if x.kind == "ident" and x.text == "windows")
+                wdot = prev_code(recv, widx - 1)
+                base = recv[:wdot]
+                sname, iname = f"r21_s{n}", f"r21_i{n}"
+                new = (synth(f"{{ let {sname} = &") + base + synth(f"; let mut {k} = {'false' if is_any else 'true'}; ") + [_for_tok()]
+                       + synth(f" {iname} in 1..{sname}.len() {{ let ") + pat + synth(f" = &{sname}[({iname} - 1)..({iname} + 1)]; ") + test + synth(f" }} {k} }}"))
+            else:
+                new = (synth(f"{{ let mut {k} = {'false' if is_any else 'true'}; ") + [_for_tok(), S(" ", "ws")] + pat + synth(" in ") + recv
+                       + synth(" { ") + test + synth(f" }} {k} }}"))
+            toks = toks[:a] + new + toks[pe + 1:]
+            fired["R21"] = fired.get("R21", 0) + 1
+            i = a + 1
+            continue
+        i += 1
+    return toks
+
+
+def rule_R22(toks, fired):
+    """X.filter(|PAT| BODY).count()  ->  { let mut r22_n = 0usize; for r22_x in X { let PAT' = ..; if BODY { r22_n += 1; } } r22_n }
+    (definition of filter + count; the closure of `filter` receives a reference to the item: a leading `&` of PAT is
+    cancelled against it, otherwise PAT is bound to `&r22_x`)"""
+    n = 0
+    i = 0
+    while i < len(toks):
+        t = toks[i]
+        if t.kind == "ident" and t.text == "filter" and not t.syn and toks[prev_code(toks, i - 1)].text == "." \
+                and toks[next_code(toks, i + 1)].text == "(":
+            dot = prev_code(toks, i - 1)
+            p = next_code(toks, i + 1)
+            pe = match_close(toks, p)
+            d2 = next_code(toks, pe + 1)
+            m2 = next_code(toks, d2 + 1)
+            p2 = next_code(toks, m2 + 1)
+            if not (toks[d2].text == "." and toks[m2].text == "count" and toks[p2].text == "(" and next_code(toks, p2 + 1) == match_close(toks, p2)):
+                raise ExtractError("R22: filter(..) is not followed by .count()")
+            pat, body = _closure_parts(toks, p, pe)
+            a = _postfix_start(toks, dot)
+            recv = toks[a:dot]
+            n += 1
+            cn, xn = f"r22_n{n}", f"r22_x{n}"
+            pc = [x for x in pat if x.kind not in ("ws", "comment")]
+            if pc and pc[0].text == "&":
+                bind = synth("let ") + pat[pat.index(pc[0]) + 1:] + synth(f" = {xn}; ")
+            else:
+                bind = synth("let ") + pat + synth(f" = &{xn}; ")
+            new = (synth(f"{{ let mut {cn} = 0usize; ") + [_for_tok()] + synth(f" {xn} in ") + recv + synth(" { ") + bind
+                   + synth("if ") + body + synth(f" {{ {cn} += 1; }} }} {cn} }}"))
+            toks = toks[:a] + new + toks[match_close(toks, p2) + 1:]
+            fired["R22"] = fired.get("R22", 0) + 1
             i = a + 1
             continue
         i += 1
@@ -972,9 +1210,9 @@ def rule_R12(toks, fired):
     return out
 
 
-RULES = {"R18": rule_R18, "R17": rule_R17, "R13": rule_R13, "R5": rule_R5, "R1": rule_R1, "R1f": rule_R1f, "R2": rule_R2, "R3": rule_R3, "R4": rule_R4, "R6": rule_R6, "R7": rule_R7,
+RULES = {"R22": rule_R22, "R21": rule_R21, "R20": rule_R20, "R19": rule_R19, "R18": rule_R18, "R17": rule_R17, "R13": rule_R13, "R5": rule_R5, "R1": rule_R1, "R1f": rule_R1f, "R2": rule_R2, "R3": rule_R3, "R4": rule_R4, "R6": rule_R6, "R7": rule_R7,
          "R10": rule_R10, "R11": rule_R11, "R12": rule_R12}
-RULE_ORDER = ["R12", "R7", "R6", "R13", "R18", "R17", "R10", "R4", "R3", "R5", "R11", "R2", "R1", "R1f"]
+RULE_ORDER = ["R12", "R7", "R6", "R13", "R18", "R19", "R17", "R21", "R22", "R20", "R10", "R4", "R3", "R5", "R11", "R2", "R1", "R1f"]
 
 
 def apply_rules(toks, rules, fired):
@@ -1182,12 +1420,20 @@ def merge_fn(toks, opts, sections, fired):
         m = re.fullmatch(r'(before|after) (.+)', key)
         if m and m.group(1) in ("before", "after") and not re.fullmatch(r"(before_loop) \d+", key):
             needle = m.group(2).strip()
+            nth = None
+            mo = re.fullmatch(r'(".*")\s*#(\d+)', needle)     # "code" #k : the k-th occurrence (1-based)
+            if mo:
+                needle, nth = mo.group(1), int(mo.group(2))
             if needle.startswith('"'):
                 needle = needle[1:-1]
             pat = sig(lex(needle))
             ci = [i for i in code_idx(toks) if he < i < bc]
             texts = [toks[i].text for i in ci]
             hits = [k for k in range(len(texts) - len(pat) + 1) if texts[k:k + len(pat)] == pat]
+            if nth is not None:
+                if len(hits) < nth:
+                    raise ExtractError(f"lost anchor: {key!r} matches {len(hits)} times")
+                hits = [hits[nth - 1]]
             if len(hits) != 1:
                 raise ExtractError(f"lost anchor: {key!r} matches {len(hits)} times")
             a, b = stmt_bounds(toks, ci[hits[0]])
